@@ -83,6 +83,11 @@ Section Run.
         else Unmodelled
     | [a; b] =>
         if is (U"verify_root") then unit_res (verify_root ed_verify sha a b)
+        (* the body of verify_root as translated on this run, interpreted; verify_signable answered by the model *)
+        else if is (U"src_verify_root") then
+          run_body (fun f args => if String.eqb f "verify_signable"%string
+                                  then match args with [s0; k0; t0; g0] => unit_res (verify_signable ed_verify sha s0 k0 t0 g0) | _ => Err TypeError end
+                                  else run_prog Source.program f args) Source.src_verify_root [a; b]
         (* the text of common.py as translated on this run (Gen/Source.v), interpreted *)
         else if is (U"src_run") then match a with VStr name => run_prog Source.program (string_of_ustr name) [b] | _ => Unmodelled end
         else if is (U"root_history") then
